@@ -179,8 +179,9 @@ theorem blank_originLines (seq : Str) (bl pl : Nat) (h : seq.length < 100000000)
 
 /-! ### keyword lines -/
 
-/-- a keyword: 1..11 upper-case letters -/
-def KwOK (kw : Str) : Prop := kw ≠ [] ∧ kw.length ≤ 11 ∧ ∀ c ∈ kw, isUpper c = true
+/-- a keyword: a blank-free visible word of at most 11 columns that begins with a letter -/
+def KwOK (kw : Str) : Prop :=
+  kw ≠ [] ∧ kw.length ≤ 11 ∧ (∀ c ∈ kw, isVisible c = true) ∧ ∀ c, kw.head? = some c → isLetter c = true
 
 /-- a list of lines that starts with a keyword line -/
 def MetaHead (X : List Str) : Prop := ∃ m rest, X = m :: rest ∧ quickMetaCheck m = .ok true
@@ -189,7 +190,7 @@ theorem MetaHead.startsStop {X : List Str} (h : MetaHead X) : StartsStop X := by
   obtain ⟨m, rest, rfl, hm⟩ := h; exact ⟨m, rest, rfl, Or.inl hm⟩
 
 theorem kw_nosp {kw : Str} (h : KwOK kw) : ' ' ∉ kw := by
-  intro hm; have := h.2.2 _ hm; revert this; decide
+  intro hm; have := h.2.2.1 _ hm; revert this; decide
 
 theorem kwLine_eq (kw c0 : Str) (h : KwOK kw) : ∃ k, padRight kw 12 ++ c0 = kw ++ (spaces (k + 1) ++ c0) := by
   refine ⟨11 - kw.length, ?_⟩
@@ -204,11 +205,11 @@ theorem kwLine_kw (kw c0 : Str) (h : KwOK kw) :
   constructor
   · show trimSpace (headOf (splitC ' ' _)) = kw
     rw [splitC_gap kw c0 k (kw_nosp h)]
-    exact trimSpace_id kw (fun c hc => isSpace_false_of_upper (h.2.2 c (List.mem_of_mem_head? hc)))
-      (fun c hc => isSpace_false_of_upper (h.2.2 c (List.mem_of_getLast? hc)))
+    exact trimSpace_id kw (fun c hc => (isVisible_facts (h.2.2.1 c (List.mem_of_mem_head? hc))).2.1)
+      (fun c hc => (isVisible_facts (h.2.2.1 c (List.mem_of_getLast? hc))).2.1)
   · obtain ⟨x, xs, rfl⟩ : ∃ x xs, kw = x :: xs := by
       cases kw with | nil => exact absurd rfl h.1 | cons x xs => exact ⟨x, xs, rfl⟩
-    have hx := h.2.2 x (by simp)
+    have hx := h.2.2.2 x rfl
     have h1 : x ≠ ' ' := by rintro rfl; revert hx; decide
     have h2 : x ≠ '/' := by rintro rfl; revert hx; decide
     simp only [quickMetaCheck, List.cons_append, ne_eq, h1, not_false_eq_true, if_true]
@@ -346,9 +347,13 @@ theorem getFeatures_table (fs : List RFeature) (ls : List FeatLayout) (stop : St
 /-! ### extra keyword blocks -/
 
 theorem extraKey_facts {k : Str} (h : isExtraKey k = true) : KwOK k ∧ k ≠ [] ∧ reservedKeys.contains k = false := by
-  simp only [isExtraKey, Bool.and_eq_true, bne_iff_ne, ne_eq, decide_eq_true_eq, List.all_eq_true, Bool.not_eq_true'] at h
+  simp only [isExtraKey, Bool.and_eq_true, decide_eq_true_eq, List.all_eq_true, Bool.not_eq_true'] at h
   obtain ⟨⟨⟨h1, h2⟩, h3⟩, h4⟩ := h
-  exact ⟨⟨h1, by omega, h3⟩, h1, h4⟩
+  cases k with
+  | nil => simp at h3
+  | cons c cs =>
+    refine ⟨⟨by simp, h1, h2, ?_⟩, by simp, h4⟩
+    intro x hx; simp at hx; subst hx; exact h3
 
 theorem extrasLines_cons (k t : Str) (es : List (Str × Str)) (ls : List (List Nat)) :
     extrasLines ((k, t) :: es) ls = block k t (ls.headD []) ++ extrasLines es ls.tail := rfl
@@ -402,7 +407,7 @@ theorem parseLoop_extras (es : List (Str × Str)) :
 theorem refsLines_cons (i : Nat) (r : RRef) (rs : List RRef) (ls : List RefLayout) :
     refsLines i (r :: rs) ls = refLines i r (ls.headD {}) ++ refsLines (i + 1) rs ls.tail := rfl
 
-theorem KwOK_reference : KwOK c!"REFERENCE" := ⟨by decide, by decide, by decide⟩
+theorem KwOK_reference : KwOK c!"REFERENCE" := ⟨by decide, by decide, by decide, by decide⟩
 
 theorem refLines_eq (i : Nat) (r : RRef) (ℓ : RefLayout) :
     refLines i r ℓ = (refLines i r ℓ).headD [] :: (refLines i r ℓ).drop 1
@@ -467,7 +472,7 @@ theorem parseLoop_source (src org : Str) (bs bo : List Nat) (X : List Str) (s : 
     (hs : isText src = true) (ho : isText org = true) (hX : MetaHead X) :
     parseLoop (block c!"SOURCE" src bs ++ (block c!"  ORGANISM" org bo ++ X)) s
       = parseLoop X { s with md := { s.md with source := src, organism := org } } := by
-  have hkw : KwOK c!"SOURCE" := ⟨by decide, by decide, by decide⟩
+  have hkw : KwOK c!"SOURCE" := ⟨by decide, by decide, by decide, by decide⟩
   have h1 : block c!"SOURCE" src bs = (block c!"SOURCE" src bs).headD [] :: (block c!"SOURCE" src bs).drop 1 := by
     rw [block_eq]; rfl
   have hq : trimSpace (headOf (split ((block c!"SOURCE" src bs).headD []) c!" ")) = c!"SOURCE" := by
@@ -492,8 +497,8 @@ theorem locusLine_kw (l : RLocus) (n : Nat) (ℓ : RecLayout) :
 /-! ### the whole record -/
 
 theorem KwOK_std : KwOK c!"DEFINITION" ∧ KwOK c!"ACCESSION" ∧ KwOK c!"VERSION" ∧ KwOK c!"KEYWORDS" ∧ KwOK c!"SOURCE" :=
-  ⟨⟨by decide, by decide, by decide⟩, ⟨by decide, by decide, by decide⟩, ⟨by decide, by decide, by decide⟩,
-   ⟨by decide, by decide, by decide⟩, ⟨by decide, by decide, by decide⟩⟩
+  ⟨⟨by decide, by decide, by decide, by decide⟩, ⟨by decide, by decide, by decide, by decide⟩, ⟨by decide, by decide, by decide, by decide⟩,
+   ⟨by decide, by decide, by decide, by decide⟩, ⟨by decide, by decide, by decide, by decide⟩⟩
 
 /-! ### optional blocks -/
 
